@@ -164,6 +164,12 @@ def units(tier, seed):
         # one held-open earlier unification  v0 = <inner>(small...)  then inner vs leaf / leaf vs leaf
         for c in INNER:
             add('a.h1.v0=%s.leaf-leaf' % c, [LEAVES], [LEAVES], [([['v0']], [[c], SMALL])], {'k0': 0, 'k1': 0}, 200)
+        # constants of different Python types that are == (1, 1.0, True) inside compounds; zero-argument compounds vs arity 1
+        MIX = ['int', 'T', 'fl', 'v0']
+        add('a.F2-F2.mixed-constants', [['F2'], MIX], [['F2'], MIX], [], {'k0': 0, 'k3': 0}, 200)
+        add('a.LP-LP.mixed-constants', [['LP'], MIX], [['LP'], MIX], [], {'k0': 0, 'k3': 0}, 200)
+        ZER = ['F0', 'F1', 'v0', 'A']
+        add('a.zero-arity', [ZER, ['v0', 'int', 'F0']], [ZER, ['v0', 'int', 'F0']], [], {}, 200)
         add('a.h1.v0=v1.F2-F2.small', [['F2'], SMALL], [['F2'], SMALL], [([['v0']], [['v1']])],
             {'k0': 0, 'k1': 0, 'k2': 0, 'k5': 0}, 200)
     else:
